@@ -50,6 +50,9 @@ type c17Daemon struct {
 	log       []string
 }
 
+// c17CsOn switches the daemon's Content Store on (used by C07's management-capacity family).
+var c17CsOn bool
+
 func c17Start(c *h.Ctx, allowHop bool, algo string) *c17Daemon {
 	cfg := fwenv.Config()
 	cfg.Fw.Threads = 2
@@ -59,8 +62,8 @@ func c17Start(c *h.Ctx, allowHop bool, algo string) *c17Daemon {
 	cfg.Tables.ContentStore.Capacity = 64
 	// status datasets carry a freshness period of 1 s: with the cache serving, a dataset fetched
 	// right after a command would legitimately be the cached previous one
-	cfg.Tables.ContentStore.Admit = false
-	cfg.Tables.ContentStore.Serve = false
+	cfg.Tables.ContentStore.Admit = c17CsOn
+	cfg.Tables.ContentStore.Serve = c17CsOn
 	fwenv.Load(cfg)
 	table.Configure()
 	fwfw.Configure()
@@ -431,7 +434,9 @@ func (d *c17Daemon) step(id string, r *rand.Rand) bool {
 			c.Distinct("ok|strategy-choice")
 		case 5: // cs/config
 			capv := uint64(r.Intn(200))
-			if r.Intn(4) == 0 { // capacities around and beyond 16 bits (NFD's default is 65536)
+			if r.Intn(5) == 0 { // the smallest capacities: nothing / one packet may be cached
+				capv = uint64(r.Intn(2))
+			} else if r.Intn(4) == 0 { // capacities around and beyond 16 bits (NFD's default is 65536)
 				capv = []uint64{65535, 65536, 65537, 70000, 1 << 20, 1<<32 + 5}[r.Intn(6)]
 			}
 			a := &mgmt.ControlArgs{Capacity: u64p(capv)}
